@@ -220,12 +220,24 @@ def root_digit_prior(prog):
     return r["t"] == "coll" and any(k.isdigit() and sub["t"] == "prior" for k, sub in r["items"])
 
 
+def has_counted_collection(e):
+    """A list-style collection (built from a list or by append) has a non-zero item counter."""
+    t = e["t"]
+    if t == "coll":
+        return (e["form"] in ("list", "append") and len(e["items"]) > 0) or any(has_counted_collection(sub) for _, sub in e["items"])
+    if t == "model":
+        return any(has_counted_collection(sub) for sub in e["kw"].values() if sub["t"] in ("model", "coll"))
+    return False
+
+
 def classes_of(c):
     prog, mode = c["program"], c["mode"]
     out = ["mode:" + mode["k"]] + ["feature:" + f for f in prog["features"]]
     k = mode["k"]
     if k != "fixed" and "const-in-collection" in prog["features"]:
         out.append("collection-constant")
+    if k != "fixed" and has_counted_collection(prog["root"]):
+        out.append("collection-item-number")
     if k == "means":
         if root_digit_prior(prog):
             out.append("digit-name-at-root")
@@ -485,6 +497,9 @@ def relevant_classes(msg, c, r):
     elif msg.startswith("the new model lost the constants held directly by a collection"):
         if "collection-constant" in cls:
             keep.append("collection-constant")
+    elif msg.startswith("the collections of the new model forgot their item counter"):
+        if "collection-item-number" in cls:
+            keep.append("collection-item-number")
     return keep
 
 
@@ -608,6 +623,10 @@ def oracle(c, r):
             return "result.model route raised %s" % vr.get("exc")
         if vr["ok"] is not None and (vr["ok"]["tree"] != new["tree"] or vr["ok"]["priors"] != new["priors"] or vr["ok"]["paths"] != new["paths"]):
             return "result.model_* differs from model.mapper_from_* on the same values"
+    # 6. hidden structure: every collection still knows how many items it holds (checked last: everything else is right)
+    if sorted(map(lambda x: (tuple(x[0]), x[1]), new["item_numbers"])) != sorted(map(lambda x: (tuple(x[0]), x[1]), orig["item_numbers"])):
+        return "the collections of the new model forgot their item counter %s -> %s (a later append overwrites an existing component)" % (
+            orig["item_numbers"][:4], new["item_numbers"][:4])
     return None
 
 
@@ -692,6 +711,21 @@ def coq_case(c, r):
         paths = clist([MG.coq_path(p) for p in new["paths"]])
         ids = clist([cnat(q) for q in new["ids"]])
     return "(CPass %s %s the_cfg %s %s %s %s)" % (MG.coq_node(orig["tree"]), specs, coq_mode(c, r), o, paths, ids)
+
+
+def tree_wf(t):
+    """The hypotheses `wf` of the Coq theorems, checked on the abstraction of the live object."""
+    k = t["t"]
+    if k == "tuple":
+        pos = [MG.member_index(n) for n, _ in t["members"]]
+        return all(c["t"] in ("prior", "const") for _, c in t["members"]) and len(set(pos)) == len(pos)
+    if k == "arith":
+        return tree_wf(t["l"]) and tree_wf(t["r"]) and (t["ln"] != t["rn"] or t["l"] == t["r"])
+    if k == "model":
+        return all(tree_wf(c) for _, c in t["attrs"])
+    if k == "coll":
+        return all(tree_wf(c) and c["t"] != "tuple" for _, c in t["attrs"])
+    return k in ("prior", "const")
 
 
 def nontrivial(c):
@@ -779,6 +813,7 @@ def run(ctx):
                         classes=cls, impl=r["orig"]["tree"], broken={"kind": "correspondence", "name": "two-sided abstraction"})
             continue
         ctx.hist("outcome", "ok" if "ok" in r["out"] else r["out"]["exc"])
+        ctx.hist("theorem-hypothesis-wf", tree_wf(r["orig"]["tree"]))
         msg = oracle(c, r)
         if msg:
             ctx.oracle["failures"] += 1
